@@ -29,6 +29,7 @@ ASSUMPTIONS = [
 ]
 SHARDS = {"quick": 8, "thorough": 16}
 MIN_REACH = {
+    "another_session_wrote_between_sow_and_reap": {"quick": 4, "thorough": 40},
     "resown_after_a_farmer_constant_was_changed": {"quick": 6, "thorough": 80},
     "pipelines_compared": {"quick": 120, "thorough": 1200},
     "harvester_files_compared": {"quick": 15, "thorough": 300},
@@ -71,7 +72,10 @@ def cases(ctx):
              # "another session": the crop (and its farmer) is re-created by name and the work is sown AGAIN from it
              "resow_reloaded": rng.random() < 0.3,
              # a constant of the farmer is changed after the first sow and the crop is sown again with the same object
-             "tweak_then_resow": rng.random() < 0.2}
+             "tweak_then_resow": rng.random() < 0.2,
+             # the harvester already holds its dataset in memory when the crop is sown, and ANOTHER session writes more
+             # points into the file between sow and reap
+             "writer_between": rng.random() < 0.35}
         if c["fresh"]:
             c["to_df"] = False        # the fresh-process reaper uses Crop.reap(), which returns the Dataset
         r = rng.random()
@@ -184,6 +188,16 @@ def run_case(ctx, case):
                         np.random.seed(case["rseed"] % 1000)
                         f.sample_combos(3, verbosity=0)
 
+            wb = None
+            if case.get("writer_between") and farmer == "harvester" and cases_l is None and combos and not case["to_df"]:
+                a0, v0 = combos[0]
+                new = [777, 778] if all(isinstance(x, (int, np.integer)) and not isinstance(x, bool) for x in v0) else \
+                    [77.25, 78.5] if all(isinstance(x, (float, np.floating)) for x in v0) else \
+                    ["zz8", "zz9"] if all(isinstance(x, str) for x in v0) else None
+                if new is not None and not any(x in v0 for x in new):
+                    wb = (a0, new)
+                    for f in (f1, f2):
+                        f.harvest_combos({**dict(gens.spell_combos(combos, "dict")), a0: [new[0]]}, verbosity=0)
             # ---------------- crop side ----------------
             crop = f1.Crop(name=name, parent_dir=tmp, **ckw)
             if case["shuffle"]:
@@ -222,6 +236,21 @@ def run_case(ctx, case):
         ctx.observe(case, nontrivial=False)
         return
     B = len(cropkit.batch_files(tmp, name))
+    if wb is not None:
+        try:
+            with quiet():
+                for f, fnx in ((f1, fn1), (f2, fn2)):
+                    other = xyzpy.Harvester(_make_runner(xyzpy, probe.Probe(kind, name="fprobe"), case, case.get("version")),
+                                            data_name=f.data_name, engine=case["engine"])
+                    other.harvest_combos({**dict(gens.spell_combos(combos, "dict")), wb[0]: [wb[1][1]]}, verbosity=0)
+                    if other._full_ds is not None:
+                        other._full_ds.close()
+            ctx.count("another_session_wrote_between_sow_and_reap")
+        except Exception as e:
+            ctx.violation(case, "the other session's harvest between sow and reap raised %r" % (e,), dict(sig, step="writer-between", **exc_sig(e)))
+            ctx.rmtree(tmp)
+            ctx.observe(case, nontrivial=False)
+            return
 
     reap_kw = {}
     if farmer == "harvester":
@@ -351,6 +380,13 @@ def run_case(ctx, case):
                 d = refmodel.ds_equiv(b, a, check_attrs=False)
                 if d:
                     bad.append("harvester file after reap differs from the file after a direct harvest: " + d)
+                if wb is not None and err1 is None:
+                    # absolute, not only side against side: what the other session harvested must still be in the file
+                    have = a[wb[0]].values.tolist() if wb[0] in a.coords else []
+                    lost = [x for x in wb[1] if x not in have]
+                    if lost:
+                        bad.append("points harvested into the file by another session (%s=%s) are gone after the crop was reaped (file has %s=%s)" % (
+                            wb[0], lost, wb[0], have))
         except Exception as e:
             bad.append("comparing harvester files raised %r" % (e,))
     if farmer == "sampler" and err1 is None:
